@@ -1,6 +1,6 @@
 (* C16 — JUnit reports are well-formed XML with counters that match their test cases.
    Statements only; proofs are in theories/JUnitProofs.v. *)
-From BV Require Import Base UStr Status JUnit JUnitProofs.
+From BV Require Import Base UStr Status JUnit JUnitProofs TableFacts.
 From BVGen Require Import StatusTable JUnitTables.
 
 (* tests / errors / failures / skipped equal the numbers of test cases and of error, failure and skipped entries *)
@@ -67,3 +67,10 @@ Example a_small_report :
       mkTC [83; 51]%N untested [CUndefinedFailure; CSkipped] [] None]) /\
   fst (report false [s1; s2; s3]) = mkCounts 2 0 1 0.
 Proof. vm_compute. split; reflexivity. Qed.
+
+(* which final step statuses make a test case an error / a failure / skipped: decided on the table generated from junit.py *)
+Theorem the_status_classes_of_the_reporter_are_the_documented_ones :
+  junit_error_step_statuses = [error; hook_error; pending; undefined] /\
+  junit_failed_step_statuses = [failed] /\ junit_skipped_statuses = [skipped; untested].
+Proof. exact junit_status_classes_are_the_documented_ones. Qed.
+Print Assumptions the_status_classes_of_the_reporter_are_the_documented_ones.
